@@ -245,6 +245,20 @@ func patchHarnesses(thorough bool) []harness {
 	hs = append(hs, patchProg{Name: "npm-relax-2-vulns", Case: u.Case{Eco: u.NPM, Pkgs: npmPkgs,
 		Manifest: []u.Req{{Name: "d1", Req: "1.0.0"}, {Name: "d2", Req: "1.0.0"}},
 		Vulns:    []u.Vuln{{ID: "V-1", Pkg: "d1", Introduced: "0", Fixed: "1.0.1"}, {ID: "V-2", Pkg: "d2", Introduced: "0", Fixed: "1.1.0"}}}})
+	// a chain of introduced vulnerabilities that forks at depth 3 (top@1 -> V0, @2 -> V1, @3 -> V2,
+	// @4 -> {V3,V4}, @5 -> V4, @6 -> V3, @7 clean): the sibling attempts for V3 and V4 are started
+	// from one id list of length 3 — any sharing of that list between attempts shows here
+	deep := []u.Pkg{{Name: "top", Vers: vers(
+		v("1.0.0", u.Dep{Name: "bad0", Req: "1.0.0"}), v("2.0.0", u.Dep{Name: "bad1", Req: "1.0.0"}), v("3.0.0", u.Dep{Name: "bad2", Req: "1.0.0"}),
+		v("4.0.0", u.Dep{Name: "bad3", Req: "1.0.0"}, u.Dep{Name: "bad4", Req: "1.0.0"}), v("5.0.0", u.Dep{Name: "bad4", Req: "1.0.0"}),
+		v("6.0.0", u.Dep{Name: "bad3", Req: "1.0.0"}), v("7.0.0"))}}
+	var deepVulns []u.Vuln
+	for i := 0; i < 5; i++ {
+		deep = append(deep, u.Pkg{Name: fmt.Sprintf("bad%d", i), Vers: vers(v("1.0.0"))})
+		deepVulns = append(deepVulns, u.Vuln{ID: fmt.Sprintf("V-%d", i), Pkg: fmt.Sprintf("bad%d", i), Introduced: "0"})
+	}
+	hs = append(hs, patchProg{Name: "npm-relax-introduced-chain-forks-at-depth-3", Case: u.Case{Eco: u.NPM, Pkgs: deep,
+		Manifest: []u.Req{{Name: "top", Req: "^1.0.0"}}, Vulns: deepVulns}})
 	if thorough {
 		hs = append(hs, patchProg{Name: "maven-override-3-vulns", Case: u.Case{Eco: u.Maven, Pkgs: mvnPkgs,
 			Manifest: []u.Req{{Name: "d1", Req: "1.0.0"}, {Name: "d2", Req: "1.0.0"}, {Name: "d3", Req: "1.0.0"}},
